@@ -62,6 +62,14 @@ def oracle(case, res):
     exo_txt = dict((n, t) for n, t in case['exo'])
     Lc = case.get('info', {}).get('L')
     tol = float(res['solver'].Parser.Err_Tolerance)
+    if case.get('tol') is not None and res['solver'].ParameterErrorTolerance is None:
+        # "to within the stated tolerance": the tolerance the block states, not what the parser made of it
+        try:
+            stated = float(case['tol'])
+            if 0.0 < stated < 1.0:
+                tol = stated
+        except ValueError:
+            pass
     for k in range(1, T + 1):
         row = {v: ts[v][k] for v in ts}
         # 2. exact parts
@@ -94,7 +102,7 @@ def oracle(case, res):
             endo = [v for v in vc['endo'] if v in submitted]
             m = max([abs(float(ts[v][k])) for v in vc['endo']] + [0.0])
             c = max(Lc, (Lc + 1) / 2.0)
-            bound = (c + 0.01) * tol * max(1.0, m * 1.01 + 0.01) + 1e-11 * max(1.0, m)
+            bound = (c + 0.01) * tol * max(1.0, m * 1.01 + 0.01) + 1e-13 * (max(1.0, m) + 1000.0)   # + rounding of one row evaluation
             for v in endo:
                 try:
                     r = abs(float(sc.eval_text(submitted[v], row)) - float(ts[v][k]))
@@ -117,7 +125,7 @@ def gen_userfn(rng):
     b = round(rng.uniform(-20, 20), 1)
     q = round(rng.uniform(0.1, 0.9), 2)
     c0 = round(rng.uniform(-50, 50), 1)
-    return {'a': a, 'b': b, 'q': q, 'c0': c0, 'T': rng.choice([1, 2, 4]), 'tol': rng.choice(['1e-4', '1e-6', '1e-8']),
+    return {'a': a, 'b': b, 'q': q, 'c0': c0, 'T': rng.choice([1, 2, 4]), 'tol': rng.choice(['1e-4', '1e-6', '1e-8', '1e-11']),
             'reduce': rng.random() < 0.5}
 
 
@@ -141,7 +149,7 @@ def oracle_userfn(u):
     for k in range(1, u['T'] + 1):
         x, y, d = ts['x'][k], ts['y'][k], ts['d'][k]
         m = max(abs(x), abs(y), 1.0)
-        bound = (max(L, (L + 1) / 2) + 0.01) * tol * (m * 1.01 + 0.01) + 1e-11 * m
+        bound = (max(L, (L + 1) / 2) + 0.01) * tol * (m * 1.01 + 0.01) + 1e-13 * (m + 100.0)
         if not (abs(f(y) - x) <= bound and abs(u['q'] * x + u['c0'] - y) <= bound):
             fails.append({'key': 'userfn:residual', 'what': 'row %d: x=%r y=%r residuals %r %r > %r' % (
                 k, x, y, abs(f(y) - x), abs(u['q'] * x + u['c0'] - y), bound), 'replay': rep})
@@ -184,7 +192,7 @@ def run(ctx):
     out.rule = ('random equation blocks by stream (affine contractions / expansive / oscillating systems of 1-12 equations '
                 'with exogenous lists and lags, overflowing products, 1/(y-c) and sqrt poles transient or persistent, random '
                 'expression trees over + - * / unary abs sqrt float max min, decorative trees moved to Parser.Decoration, '
-                'malformed exogenous/initial specifications, ill-formed states), tolerances 1e-3..1e-10, caps 0..30 and 400, '
+                'malformed exogenous/initial specifications, ill-formed states), tolerances 1e-3..1e-12, caps 0..30 and 400, '
                 'reduction on/off, MaxTime 0..6; plus systems using a registered user function (oracle only). Non-trivial = '
                 'parsed, MaxTime >= 1 and at least two simultaneous equations; distinct by block text + configuration')
     out.samples = [sc.block_text(c) for c in (cases[0], cases[len(cases) // 2], cases[-1])]
